@@ -123,4 +123,11 @@ CHECKS.update({
         "technique": "symbolic execution (CrossHair + z3) of multi-session histories on content-addressed materialised text; differential oracle (AST + value)",
     },
 })
+CHECKS.update({
+    "C19": {
+        "text": "Differential symbolic execution: the same template and the same symbolic values go through the real, unmodified inline_snapshot.testing.Example.run_inline and through the real plugin hooks in process, with the four category bits symbolic; the solver confirms on every path that both write identical files and report the same pending categories.",
+        "note": "6 templates (enumerated). Example.run_pytest and real pytest processes cannot carry symbolic data: they are compared with run_inline on 5 fixed projects as labelled contract validation. One defect found here was repaired (run_inline did not insert the HasRepr import).",
+        "technique": "differential symbolic execution (CrossHair + z3) of Example.run_inline vs. the real plugin hooks",
+    },
+})
 NOT_APPLICABLE = {}
